@@ -11,6 +11,7 @@ import (
 	"encoding/binary"
 	"fmt"
 	"os"
+	"reflect"
 	"strings"
 
 	"github.com/tink-crypto/tink-go/v2/internal/protoserialization"
@@ -32,6 +33,7 @@ type world struct {
 	perturb  map[string][]perturbSrc // serializations kept for the perturbation stream, by type URL
 	unser    []perturbSrc            // keys the constructors accept but SerializeKey refuses
 	unserN   map[string]int
+	used     map[string]bool // "keyparser|<url>", "keyserializer|<go type>", "paramsparser|<url>", "paramsserializer|<go type>"
 }
 
 // violate reports the first reproducer of a class and counts the rest.
@@ -168,6 +170,8 @@ func (w *world) checkKey(c *gcase, k key.Key, idc string, role string) *protoser
 		return nil
 	}
 	kd := s1.KeyData()
+	w.used["keyserializer|"+reflect.TypeOf(k).String()] = true
+	w.used["keyparser|"+kd.GetTypeUrl()] = true
 	tname := typeOfURL(kd.GetTypeUrl())
 	o.Count("key/" + tname)
 	// ---- prefix type / id requirement mapping
@@ -337,6 +341,8 @@ func (w *world) checkParams(c *gcase) {
 		w.violate("UNSERIALIZABLE "+c.typ+" parameters ("+reason+")", "NewParameters accepts these parameters but SerializeParameters fails: %s: %v", ctx, err)
 		return
 	}
+	w.used["paramsserializer|"+reflect.TypeOf(c.params).String()] = true
+	w.used["paramsparser|"+t1.GetTypeUrl()] = true
 	tname := typeOfURL(t1.GetTypeUrl())
 	o.Count("params/" + tname)
 	wantPrefix := expectedPrefix(c.params)
@@ -437,4 +443,20 @@ func shortLabel(s string) string {
 		return s[:i]
 	}
 	return s
+}
+
+// registryCoverage compares what is registered in protoserialization (read through the export
+// hook) with what stream 1 exercised, so that a key type added to the library shows up as uncovered.
+func (w *world) registryCoverage() {
+	kp, ks, pp, ps := protoserialization.VerifRegistry()
+	for kind, names := range map[string][]string{"keyparser": kp, "keyserializer": ks, "paramsparser": pp, "paramsserializer": ps} {
+		for _, n := range names {
+			if w.used[kind+"|"+n] {
+				w.o.Count("registered-and-exercised/" + kind)
+			} else {
+				w.o.Count("registered-but-NOT-exercised/" + kind + "/" + n)
+				fmt.Fprintf(os.Stderr, "c12: registered but not exercised: %s %s\n", kind, n)
+			}
+		}
+	}
 }
